@@ -1,8 +1,8 @@
 """C18 — termination and clean rejection.
 
 Campaign = exhaustive small-shape enumeration of public operations with valid AND malformed
-argument tuples.  Every call runs in a vlib.run_impl worker under a watchdog (hang -> status 1,
-a dead worker -> status 2).  For each case the ORACLE is NumPy on the densified operands (or an
+argument tuples.  Every call runs in a vlib.run_impl worker under a watchdog (40 s, and 120 s once
+more in a fresh worker before a hang is declared -> status 1; a dead worker -> status 2).  For each case the ORACLE is NumPy on the densified operands (or an
 executable Spec predicate for sparse-only operations); the verdict is computed inside Coq by
 Corr/C18Judge.v:judge_api, which also runs the generated validators of Model/Validators.v on the
 same argument and compares the exception class.  Kernel level: the compiled loop kernels are run
@@ -39,7 +39,12 @@ ASSUMPTIONS = [
     "value differences on valid arguments are recorded (coverage.value_mismatches) but belong to C01-C10",
 ]
 
-WATCHDOG = 5.0          # vlib.run_impl applies 4x to every case (import + JIT allowance): 20 s effective
+# vlib.run_impl multiplies per_case_timeout by 4 for every case (its "first case of a worker" allowance is
+# never switched off), so 10.0 means a 40 s watchdog.  Killing a worker also throws away everything Numba
+# compiled in it, and on a loaded machine one cold compilation can take tens of seconds: a case that
+# trips the first watchdog is therefore re-run under RETRY_WATCHDOG before it is called a hang.
+WATCHDOG = 10.0
+RETRY_WATCHDOG = 30.0   # 120 s effective
 CLEAN = ("ValueError", "IndexError", "TypeError")
 
 # ------------------------------------------------------------------ documented sparse limitations
@@ -641,10 +646,12 @@ def gen_cases(tier, seed):
         if len(sp["shape"]) >= 1:
             for dt in ("uint8", "int8", "uint64"):
                 allw = ("rev", "triu", "tril", "T", "sum0", "flat", "roll", "neg", "pad", "diag", "flip", "concat", "kron", "step2", "gcxs", "gcxs_getitem")
+                if tier == "quick" and dt == "uint8":
+                    allw = ("rev", "triu", "T", "sum0", "flat", "roll", "neg", "pad", "gcxs", "gcxs_getitem")
                 if tier == "quick" and dt == "int8":
-                    allw = ("rev", "neg", "sum0", "roll", "triu")
+                    allw = ("rev", "roll")
                 if tier == "quick" and dt == "uint64":
-                    allw = ("rev", "sum0", "gcxs_getitem", "T", "pad", "kron")
+                    allw = ("gcxs_getitem", "pad")
                 for which in allw:
                     c = {"op": "idx_dtype_op", "a": with_fmt(sp, "coo"), "b": None, "args": {"which": which, "dt": dt}, "idx_dtype": dt}
                     cases.append(c)
@@ -996,8 +1003,8 @@ def kernel_lit(c, r):
 # ------------------------------------------------------------------ campaign
 def run_watchdogged(fname, cases, group_of):
     """run the cases in worker processes: 3 op-families x 2 workers (so that every Numba kernel is
-    JIT-compiled in 2 processes, not 6), first under the 20 s watchdog; every case that did not come
-    back is run again alone-ish under a 80 s watchdog (a cold worker may spend more than 20 s in the
+    JIT-compiled in 2 processes, not 6), first under the 40 s watchdog; every case that did not come
+    back is run again alone-ish under a 120 s watchdog (a cold worker may spend tens of seconds in the
     JIT compiler on a loaded machine): only a case that fails to return TWICE is a hang."""
     import threading
     groups = {}
@@ -1017,7 +1024,7 @@ def run_watchdogged(fname, cases, group_of):
     suspects = [i for i, r in enumerate(res) if r is None or r.get("hang")]
     first_pass_suspects = len(suspects)
     if suspects:
-        work(suspects, 4 * WATCHDOG, 6)
+        work(suspects, RETRY_WATCHDOG, 6)
     return res, first_pass_suspects
 
 
@@ -1042,7 +1049,7 @@ def campaign(build, tier, seed, report, budget=1):
     t1 = time.time()
     kres, sus2 = run_watchdogged("impl_kernel", kcases, lambda c: 0 if c["k"] in ("dcn", "dcns", "dnc", "dncs") else 1)
     t2 = time.time()
-    report["notes"].append(f"{sus1 + sus2} cases exceeded the 20 s watchdog in the first pass and were re-run under 80 s; "
+    report["notes"].append(f"{sus1 + sus2} cases exceeded the {4 * WATCHDOG:.0f} s watchdog in the first pass and were re-run under 120 s; "
                            f"implementation side: API {t1 - t0:.0f} s, kernels {t2 - t1:.0f} s")
 
     lits, keep = [], []
@@ -1157,7 +1164,7 @@ def campaign(build, tier, seed, report, budget=1):
     cov["distinct_nontrivial"] = len({json.dumps(_strip(cases[i]), sort_keys=True, default=str) for i in keep}) + \
         len({json.dumps(c, sort_keys=True) for c in kcases})
     cov["rule"] = ("exhaustive enumeration over small operand shapes (extents {0,1,2}, 0-d .. 3-d) of public operations with "
-                   "valid and malformed argument tuples, each call under a 20 s watchdog in a worker process; distinct = "
+                   "valid and malformed argument tuples, each call under a watchdog in a worker process (40 s, then 120 s once more before a hang is declared); distinct = "
                    "distinct (operation, operand specs, arguments); kernel cases = distinct kernel inputs")
     cov["samples"] = [dict(case=_short(cases[i]), result=_short_res(res[i].get("impl"))) for i in (keep[0], keep[len(keep) // 2], keep[-1])]
     cov["branch_tags"] = dict(sorted(tags.items()))
@@ -1166,7 +1173,7 @@ def campaign(build, tier, seed, report, budget=1):
     cov["value_mismatches"] = {"count": len(vm), "note": "implementation returned another value than NumPy on a valid argument: "
                                "not a C18 matter (C01-C10 decide values)", "samples": vm[:12]}
     cov["harness_errors"] = harness_errors[:10]
-    cov["watchdog_s"] = WATCHDOG * 4
+    cov["watchdog_s"] = {"first_pass": WATCHDOG * 4, "confirmation": RETRY_WATCHDOG * 4}
     if harness_errors:
         report["notes"].append(f"{len(harness_errors)} cases could not be run by the harness (see coverage.harness_errors)")
     return viol
